@@ -311,6 +311,10 @@ func TestVerifC38(t *testing.T) {
 			}
 			rate := args[0].u
 			before := [2]uint64{s.pending(0), s.pending(1)}
+			alreadyBefore := map[int]struct{}{} // unsettled (per the oracle's history) before this build
+			for i := range s.unsettled {
+				alreadyBefore[i] = struct{}{}
+			}
 			recBefore := map[int]bool{} // fee record present before this build (e.g. from a raw Bond)
 			for p, tx := range txs {
 				id := tx.GetID()
@@ -352,7 +356,9 @@ func TestVerifC38(t *testing.T) {
 			// oracle bookkeeping: a tx passed on is bonded; if it was already unsettled this is a re-bond
 			for _, p := range bondedPos {
 				i := is[p]
-				if _, already := s.unsettled[i]; already || recBefore[i] {
+				// a fee record that exists before the build means "still bonded" only if the oracle's own
+				// history says so (node-level sequences) or a raw Bond may have created it (raw sequences)
+				if _, already := s.unsettled[i]; already || (s.raw && recBefore[i]) {
 					s.dupBond = true
 					r.Count("dup-bond")
 					if !already { // bonded by a raw Bond earlier: the fee of that bonding is held
@@ -364,6 +370,21 @@ func TestVerifC38(t *testing.T) {
 					continue
 				}
 				s.unsettled[i] = s.checkFee(r, l, i, txs[p], rate)
+			}
+			// a tx admitted in this build must fit: the sponsor's unsettled fees (recomputed here from
+			// sizes and rates, not read from the db) stay within its max balance
+			if !s.raw {
+				var want [2]uint64
+				for i, fee := range s.unsettled {
+					want[s.txs[i].Auth.(c38Auth).sponsor] += fee
+				}
+				for _, p := range bondedPos {
+					sp := txs[p].Auth.(c38Auth).sponsor
+					if _, already := alreadyBefore[is[p]]; !already && want[sp] > s.max[sp] {
+						r.ViolationAt("pending-exceeds-max", s.start, r.Line(), "sponsor %d: tx %d admitted although the fees of its unsettled bonded txs sum to %d > max %d (%s)", sp, is[p], want[sp], s.max[sp], l)
+						break
+					}
+				}
 			}
 			// pending never rises above the max balance
 			for sp := byte(0); sp < 2; sp++ {
@@ -524,6 +545,22 @@ func c38Generate(r *verifh.Run) []string {
 	add("buildfail 1 0")
 	add("build 1 0")
 	add("accept 101")
+	// a zero-fee bond is a bond like any other: once settled, re-submitting the tx is a new
+	// bonding that is charged and limited (rate 0, accept / expiry, then a non-zero rate)
+	add("reset")
+	add("deftx 0 0 %d 100", s0)
+	add("setmax 0 5")
+	add("build 0 0")
+	add("accept 50 0")
+	add("build 1 0")
+	add("accept 200")
+	add("reset")
+	add("deftx 0 1 %d 100", s0)
+	add("setmax 1 1000")
+	add("build 0 0")
+	add("accept 101")
+	add("build 3 0 0")
+	add("accept 300")
 	// fee rates around 2^64/size: the product must not wrap
 	add("reset")
 	add("deftx 0 0 %d 100", s0)
@@ -605,6 +642,17 @@ func c38Generate(r *verifh.Run) []string {
 				fmt.Fprintf(&sb, " %d", r.RNG.Intn(ntx))
 			}
 			return sb.String()
+		}
+		if !raw && r.RNG.Chance(10) {
+			// zero-fee bonding, settlement, re-submission at a non-zero rate
+			tx := r.RNG.Intn(ntx)
+			add("build 0 %d", tx)
+			if r.RNG.Bool() {
+				add("accept %d %d", r.RNG.Intn(3), tx)
+			} else {
+				add("accept %d", int64(math.MaxInt64))
+			}
+			add("build %d %d%s", 1+uint64(r.RNG.Intn(5)), tx, pickTxs(2))
 		}
 		nops := 3 + r.RNG.Intn(10)
 		for k := 0; k < nops; k++ {
